@@ -1023,8 +1023,10 @@ def q_sample_interleaved(cx, P):
                 result[q] = bit[q]
         return None
 
+    # the program-level flags (quirks) may have changed with the gate just applied
+    params2 = dict(params, **P.base())
     cx.check("sample: a generator advanced after apply_gate samples the state of the gates applied so far",
-             dict(params, phase="after-gate", gate_recorded=ok, distribution_changed=changed), second, nontrivial=changed)
+             dict(params2, phase="after-gate", gate_recorded=ok, distribution_changed=changed), second, nontrivial=changed)
 
 
 def q_sample_chaotic(P):
